@@ -156,6 +156,13 @@ func runC14(c *fw.Ctx) {
 	}
 	mon.AfterBlock = func(e *Env, o *lab.Obs) { c.Count("block_phases", 3) }
 	e.Monitors = append(e.Monitors, mon)
+	// "changes nothing" also covers what a failed transaction leaves behind OUTSIDE the stores
+	// (process memory): it shows as later behaviour that contradicts the committed state - a
+	// non-owner accepted, an id handed out twice. The registry reference model watches for that.
+	_, regMon := NewRegistryMonitor(e, func(rule string) bool {
+		return rule == "record-by-non-owner" || rule == "purchase-by-non-owner" || rule == "record-unknown-id" || rule == "purchase-unknown-id" || rule == "next-id" || rule == "owner-changed"
+	})
+	e.Monitors = append(e.Monitors, regMon)
 
 	w := defaultMix
 	w.Ent, w.Reg, w.Stream, w.Bank, w.Staking = 40, 25, 15, 15, 5
